@@ -949,6 +949,9 @@ func runE3(p *Program, sp *Spec, c *Collector) {
 			runE3Drivers(p, sp, c, a, pi)
 		}
 	}
+	for _, rs := range sp.ReceiverState {
+		runReceiverState(p, c, rs)
+	}
 }
 
 func entryNames(fs []*ssa.Function) string {
@@ -1315,3 +1318,103 @@ func runEpochRule(p *Program, c *Collector, a *stateAn, pi *passInfo, d *ssa.Fun
 }
 
 var _ = types.Typ
+
+// ---------------------------------------------------------------------------------------------
+// receiver state: a method that renders / computes from an object must re-initialise every field of its receiver that
+// it (or the methods it calls on the same receiver) mutates, before anything reads it — otherwise a second call on the
+// same object starts from what the first call left (the struct-field analogue of the unit-state rule).
+
+type ReceiverStateSpec struct {
+	Props []string `json:"props"`
+	Entry string   `json:"entry"`
+	What  string   `json:"what"`
+}
+
+func receiverFieldOf(addr ssa.Value, fn *ssa.Function) (string, bool) {
+	if len(fn.Params) == 0 || fn.Signature.Recv() == nil {
+		return "", false
+	}
+	recv := fn.Params[0]
+	switch a := addr.(type) {
+	case *ssa.FieldAddr:
+		if a.X == ssa.Value(recv) {
+			n, _ := fieldOf(a.X.Type(), a.Field)
+			return n, true
+		}
+	}
+	return "", false
+}
+
+func runReceiverState(p *Program, c *Collector, rs ReceiverStateSpec) {
+	entry := p.Func(rs.Entry)
+	if entry == nil || entry.Signature.Recv() == nil {
+		c.Anchor(rs.Props, "E3: receiver state: %s does not resolve to a method", rs.Entry)
+		return
+	}
+	recvT := entry.Signature.Recv().Type()
+	a := getStateAn(p)
+	// fields mutated through the receiver in the closure (methods on the same receiver type)
+	mutated := map[string]string{}
+	for fn := range p.reach([]*ssa.Function{entry}) {
+		if fn.Signature.Recv() == nil || !types.Identical(fn.Signature.Recv().Type(), recvT) {
+			continue
+		}
+		for _, b := range fn.Blocks {
+			for _, in := range b.Instrs {
+				switch x := in.(type) {
+				case *ssa.Store:
+					if f, ok := receiverFieldOf(x.Addr, fn); ok {
+						if fn == entry && a.fresh(x.Val, gset{}, map[ssa.Value]bool{}) && dominatesAllOwnCalls(p, x, entry) {
+							continue // this is the reset itself
+						}
+						mutated[f] = p.InstrPos(in)
+					}
+				case *ssa.MapUpdate:
+					if ld, ok := x.Map.(*ssa.UnOp); ok {
+						if f, ok := receiverFieldOf(ld.X, fn); ok {
+							mutated[f] = p.InstrPos(in)
+						}
+					}
+				}
+			}
+		}
+	}
+	// fields reset at the start of entry
+	reset := map[string]bool{}
+	for _, b := range entry.Blocks {
+		for _, in := range b.Instrs {
+			if st, ok := in.(*ssa.Store); ok {
+				if f, ok := receiverFieldOf(st.Addr, entry); ok && a.fresh(st.Val, gset{}, map[ssa.Value]bool{}) && dominatesAllOwnCalls(p, st, entry) {
+					reset[f] = true
+				}
+			}
+		}
+	}
+	n := 0
+	for _, f := range sortedKeys(mutated) {
+		n++
+		key := "recvstate:" + rs.Entry + " field:" + f
+		if reset[f] {
+			c.Ob(rs.Props, "E3.receiver-state", key, Discharged, rs.What+": the field is re-initialised with a state-independent value before any callee runs", mutated[f], true)
+		} else {
+			c.Ob(rs.Props, "E3.receiver-state", key, Violated, rs.What+": field "+f+" of the receiver is modified during the call (at "+mutated[f]+") but is not re-initialised at its start: a second call on the same object continues from what the first one left", mutated[f], false)
+		}
+	}
+	if n == 0 {
+		c.Ob(rs.Props, "E3.receiver-state", "recvstate:"+rs.Entry, Discharged, rs.What+": no field of the receiver is modified", p.FuncPos(entry), true)
+	}
+}
+
+// dominatesAllOwnCalls: the instruction is executed before every call of an own function in fn and before every loop.
+func dominatesAllOwnCalls(p *Program, at ssa.Instruction, fn *ssa.Function) bool {
+	for _, b := range fn.Blocks {
+		for _, in := range b.Instrs {
+			if ci, ok := in.(ssa.CallInstruction); ok && len(p.ownCallees(ci)) > 0 {
+				if !instrDominates(at, in) {
+					return false
+				}
+			}
+		}
+	}
+	return true
+}
